@@ -605,10 +605,9 @@ class SIZE(Command):
             self.dz = p[2]
 
     def _as_text(self):
-        if all([self.dx, self.dy, self.dz]):
-            return "SIZE {:,g} {:,g} {:,g}".format(self.dx, self.dy, self.dz)
-        else:
-            return ""
+        # Print the values that are there, so that an incomplete SIZE instruction is not written as an empty line:
+        values = [x for x in (self.dx, self.dy, self.dz) if x is not None]
+        return " ".join(["SIZE"] + ["{:,g}".format(x) for x in values])
 
     @property
     def max(self):
